@@ -357,6 +357,7 @@ func (it writerItem) snippet() snippet.Snippet {
 }
 
 func (c writerCase) Line() string { return "" }
+
 // second: the package of the second file the same snippet values are rendered into — the package of the first item where
 // that is another one than the first file's, so that one reference changes sides (qualified there, bare here)
 func (c writerCase) second() string {
